@@ -10,7 +10,7 @@
 (* are read with Python's operand-returning semantics (PyLogic) because    *)
 (* the comparison is against Python's own value.                           *)
 (***************************************************************************)
-EXTENDS C07_Env, Json, IOUtils
+EXTENDS C07_Model, Json, IOUtils
 VARIABLES blk, off
 
 Recs == ndJsonDeserialize(IOEnv.TRACE_FILE)
@@ -19,36 +19,6 @@ NB == (Len(Recs) + BS - 1) \div BS
 Init == blk \in 0..(NB - 1) /\ off = 0
 Next == off < BS - 1 /\ off' = off + 1 /\ UNCHANGED blk
 Idx == blk * BS + off + 1
-
-\* a or b == a if a else b ;  a and b == b if a else a   (operands are pure)
-RECURSIVE PyLogic(_)
-Chain(kind, ks) ==
-    LET RECURSIVE Go(_)
-        Go(i) == IF i = Len(ks) THEN ks[i]
-                 ELSE IF kind = "LogOr" THEN IfE(ks[i], ks[i], Go(i + 1))
-                 ELSE IfE(ks[i], Go(i + 1), ks[i])
-    IN Go(1)
-PyLogic(e) ==
-    LET ks == [i \in 1..Len(Kids(e)) |-> PyLogic(Kids(e)[i])] IN
-    IF e.t \in {"LogOr", "LogAnd"} /\ Len(ks) > 0 THEN Chain(e.t, ks)
-    ELSE WithKids(e, ks)
-
-JudgeOne(tree, pyv, env) ==
-    IF IsUnrep(pyv) THEN "SKIP"
-    ELSE LET tv == Eval(PyLogic(tree), env) IN
-         IF IsUnrep(tv) THEN "SKIP"
-         ELSE IF IsErr(pyv) THEN (IF IsErr(tv) THEN "OK" ELSE "value-instead-of-error")
-         ELSE IF IsErr(tv) THEN "error-instead-of-value"
-         ELSE IF ValEq(pyv, tv) /\ (IsNum(pyv) <=> IsNum(tv)) THEN "OK" ELSE "wrong-value"
-
-JudgeTree(tree, py) ==
-    LET vs == [i \in 1..Len(Envs) |-> JudgeOne(tree, py[i], Envs[i])]
-        bad(i) == vs[i] \notin {"OK", "SKIP"}
-    IN IF \E i \in 1..Len(vs) : bad(i)
-       THEN LET i == CHOOSE i \in 1..Len(vs) : bad(i) /\ \A j \in 1..(i - 1) : ~bad(j)
-            IN [v |-> vs[i], env |-> i]
-       ELSE IF \A i \in 1..Len(vs) : vs[i] = "SKIP" THEN [v |-> "SKIP", env |-> 0]
-       ELSE [v |-> "OK", env |-> 0]
 
 Verdicts(rec) ==
     LET parserV ==
@@ -66,8 +36,24 @@ Verdicts(rec) ==
           ELSE JudgeTree(rec.ai.e, rec.py)
     IN [p |-> parserV, a |-> astV]
 
+\* drift: the real parser's tree against the transcription's prediction (exact)
+Drift(rec) ==
+    LET p == Parse(rec.toks) IN
+    IF rec.pp.r = "ok" /\ p.ok THEN (IF p.e # rec.pp.e THEN "parsed-tree" ELSE "")
+    ELSE IF rec.pp.r = "err" /\ ~p.ok THEN (IF p.err # rec.pp.v.e THEN "error-class" ELSE "")
+    ELSE IF rec.pp.r = "unser" THEN "" ELSE "parse-outcome"
+
+\* oracle binding: the reference grammar (M-layer) against CPython itself
+OracleCheck(rec) ==
+    LET r == PyParse(rec.toks) IN
+    IF rec.syn THEN (IF r.ok THEN "reference-accepts-what-CPython-rejects" ELSE "")
+    ELSE IF ~r.ok THEN "reference-rejects-what-CPython-accepts"
+    ELSE LET j == JudgeTree(r.e, rec.py) IN IF j.v \in {"OK", "SKIP"} THEN "" ELSE "reference-" \o j.v
+
 Report ==
     Idx <= Len(Recs) =>
-      LET rec == Recs[Idx] v == Verdicts(rec) IN
-      (v.p.v = "OK" /\ v.a.v = "OK") \/ PrintT(ToJson([id |-> rec.id, p |-> v.p, a |-> v.a]))
+      LET rec == Recs[Idx] v == Verdicts(rec) d == Drift(rec) o == OracleCheck(rec) IN
+      /\ ((v.p.v = "OK" /\ v.a.v = "OK") \/ PrintT(ToJson([id |-> rec.id, p |-> v.p, a |-> v.a])))
+      /\ (d = "" \/ PrintT(ToJson([id |-> rec.id, drift |-> d])))
+      /\ (o = "" \/ PrintT(ToJson([id |-> rec.id, oracle |-> o])))
 =============================================================================
